@@ -25,3 +25,21 @@ package shareddiscovery
 //@   ensures[status-codes-add] forall(k, int, in(k, result.StatusCodes) ==> result.StatusCodes[k] == ite(in(k, agg.StatusCodes), agg.StatusCodes[k], 0) + ite(in(k, aggB.StatusCodes), aggB.StatusCodes[k], 0))
 //@   ensures[total-duration-adds] result.Count > 0 ==> result.AverageDuration * real(result.Count) == agg.AverageDuration * real(agg.Count) + aggB.AverageDuration * real(aggB.Count)
 //@   ensures[total-spoe-duration-adds] result.Count > 0 ==> result.AverageTotalDuration * real(result.Count) == agg.AverageTotalDuration * real(agg.Count) + aggB.AverageTotalDuration * real(aggB.Count)
+
+// Combining two endpoint -> statistics mappings (two batches): the endpoints are the union, and for every endpoint the
+// request count is the sum of the two sides (an absent side counts as zero) - so the counts do not depend on where the
+// batch boundary fell.
+//@ func (EndpointMapping).Combine
+//@   prop C15
+//@   requires (aggA == nil || allocated(aggA)) && (aggB == nil || allocated(aggB))
+//@   requires forall(k, Endpoint, in(k, aggA) ==> aggA[k].Count >= 0 && (aggA[k].StatusCodes == nil || allocated(aggA[k].StatusCodes)))
+//@   requires forall(k, Endpoint, in(k, aggB) ==> aggB[k].Count >= 0 && (aggB[k].StatusCodes == nil || allocated(aggB[k].StatusCodes)))
+//@   modifies nothing
+//@   allocates map
+//@   loop 1 modifies mapof(res)
+//@   loop 1 invariant[copy-of-a] res != nil && !allocated_at_entry(res) && forall(k, Endpoint, in(k, res) <==> in(k, seen1)) && forall(k, Endpoint, in(k, res) ==> res[k] == aggA[k])
+//@   loop 2 modifies mapof(res)
+//@   loop 2 invariant[union-so-far] res != nil && !allocated_at_entry(res) && forall(k, Endpoint, in(k, res) <==> (in(k, aggA) || in(k, seen2)))
+//@   loop 2 invariant[counts-so-far] forall(k, Endpoint, in(k, res) ==> res[k].Count == ite(in(k, aggA), aggA[k].Count, 0) + ite(in(k, seen2), aggB[k].Count, 0) && res[k].Count >= 0 && (res[k].StatusCodes == nil || allocated(res[k].StatusCodes)))
+//@   ensures[endpoints-union] result != nil && forall(k, Endpoint, in(k, result) <==> (in(k, aggA) || in(k, aggB)))
+//@   ensures[counts-add] forall(k, Endpoint, in(k, result) ==> result[k].Count == ite(in(k, aggA), aggA[k].Count, 0) + ite(in(k, aggB), aggB[k].Count, 0))
